@@ -18,7 +18,7 @@ template<class T> union Raw { T v; Raw() noexcept {} ~Raw() noexcept {} };
 
 // The Arena is environment (C18 checks it). One request per run is served from a typed pool of 32 spans (a malloc'ed byte block
 // costs the solver 7 GB here instead of 1), reporting the size the real arena would report; it may fail.
-static RALiveSpan pool[32];   // 256 bytes: what ArenaVector's growth rule asks for 5 or 6 spans (64 bytes up to 4, 32 up to 2... see arenavector.cpp)
+static RALiveSpan pool[32];   // 256 bytes = what ArenaVector's growth rule requests for 5 or 6 spans (16 / 64 bytes for fewer; arenavector.cpp)
 namespace arena_stub { static bool may_fail = false; static int n_allocs = 0, n_failed = 0; }
 ASMJIT_BEGIN_NAMESPACE
 void* Arena::_alloc_reusable(size_t size, Out<size_t> allocated_size) noexcept {
@@ -32,9 +32,12 @@ void* Arena::_alloc_reusable(size_t size, Out<size_t> allocated_size) noexcept {
 }
 void Arena::_release_dynamic(void*, size_t) noexcept {}
 ASMJIT_END_NAMESPACE
-static Raw<Arena> g_arena_store;
-static inline Arena& env_arena() { arena_stub::may_fail = false; arena_stub::n_allocs = arena_stub::n_failed = 0; for (unsigned i = 0; i < Arena::kReusableSlotCount; i++) g_arena_store.v._reusable_slots[i] = nullptr; return g_arena_store.v; }
-//   // zero: no block, no pooled chunks; free_reusable() only links the released storage into its slot list
+static Raw<Arena> g_arena_store;   // no block, nothing pooled: every request reaches the stand-in; free_reusable() only links the released storage into its slot list
+static inline Arena& env_arena() {
+  arena_stub::may_fail = false; arena_stub::n_allocs = arena_stub::n_failed = 0;
+  for (unsigned i = 0; i < Arena::kReusableSlotCount; i++) g_arena_store.v._reusable_slots[i] = nullptr;
+  return g_arena_store.v;
+}
 
 struct Sp { uint32_t a, b; };
 
